@@ -92,7 +92,9 @@ class Report:
         # floors (fail closed)
         if floors_enforced:
             for rid, r in self.rules.items():
-                if r["count"] < r["floor"]:
+                # a rule that reports a violation evidently still sees its code; a violation may cut
+                # dependent obligations short, which must not turn the verdict into "no verdict"
+                if r["count"] < r["floor"] and r["violations"] == 0:
                     raise AnalysisError(f"rule {rid} matched {r['count']} instances, below its floor {r['floor']}: the rule no longer sees the code it was written for")
         violations, known_hits = [], []
         for o in self.obligations:
